@@ -13,6 +13,8 @@ CLAIMED = {
  "C15": ("3 (C15)", "Order/equality vs exact rational arithmetic for every pair of 64-bit numbers at every (fd1,fd2) in [0,18]^2, Int() exactness, constructors, print/parse round trip at every fd and digit count, and literal parsing for all digit strings of the stated shapes: full 64-bit domain, decided in linear integer arithmetic with explicit wrap-around.", "strconv.FormatUint is modelled by a digit-chain intrinsic"),
  "C14": ("3 (C14)", "Every member sequence of <= 3 (thorough 4) members - names over all equality patterns, explicit/implicit mix, explicit values ranging over all of int64 - is run through the real Set/SetNext and compared with the RFC 7950 9.6.4.2/9.7.4.2 rule stated over exact integers; name/value views checked to be inverse.", ""),
  "C10": ("3 (C10)", "parseChildRanges (split, min/max substitution, order test, sort, coalesce, subset test, validation) is executed on every restriction skeleton of <= 2 (thorough 3) parts against an arbitrary valid parent set, with all endpoints symbolic over the full 64-bit domain and a universally quantified member x: result set == written set, sorted/disjoint/coalesced, subset of the parent, and acceptance/rejection exactly as the property states; integers/lengths and decimal64 at every fraction-digits.", "number parsers stubbed inside the harness (contract decided by C15); Number.Less summarised"),
+ "C02": ("3 (C02)", "yang.Parse (the whole of lex.go and parse.go, from SSA) is run on every ASCII text of <= 4 (thorough 5) bytes and on four structured families (strings after 15 kinds of line prefix with every body over the bytes the reader distinguishes, token sequences with every boundary spelling, brace nestings, escapes in and outside pattern arguments); acceptance, the whole forest and every argument byte are compared with an independent RFC 7950 section 6 reader written in the harness.", "symbolic bytes assumed ASCII; the reference reader is part of the trusted base"),
+ "C16": ("3 (C16)", "Statement positions are recomputed from the text by the reference reader for every accepted text of all C02 universes and for layouts of tabs, CR LF, multi-byte characters, comments and multi-line strings; for single-fault texts of 9 fault kinds after such layouts the first error line must name the offending token, backslash or opener. Positions in build/resolve errors (third sentence) are not yet covered in this revision.", "symbolic bytes assumed ASCII"),
 }
 
 NOT_APPLICABLE = {
